@@ -948,7 +948,7 @@ def _r8_rst7(ctx, W, T, same):
     wfn = F.method(ctx, key, "write")
     q = cls + ".write / ._parse"
     for na in (1, 2, 3, 4):
-        for cell in (False, True, "small", "large"):
+        for cell in (False, True, "small", "large", "rhombohedral"):
             if na <= 2 and cell is True:
                 continue        # 1 / 2 atoms: whether the 4th line is a box is decided from its values - concrete cells only
             desc = "%d atom%s, cell %s: coordinates, time and cell come back as written" % (na, "" if na == 1 else "s", {False: "absent", True: "symbolic"}.get(cell, cell))
